@@ -270,11 +270,13 @@ def pattern_sessions(inst, side, pw, level):
         lim //= 4
     inbound0 = RS.message(rp, peer, w, y0)
     own = dict(pattern_element_scalars(R, R.mul(rp.blind(side), w), G, pos))
-    own.update(modulus_prefix_scalars(R, R.mul(rp.blind(side), w), G, lim))
+    if level:
+        own.update(modulus_prefix_scalars(R, R.mul(rp.blind(side), w), G, lim))
     for key, k in sorted(own.items(), key=lambda kv: str(kv[0])):
         out.append((k % q, y0, inbound0, "msg[%s]=%s" % key))
     theirs = dict(pattern_element_scalars(R, R.mul(rp.blind(peer), w), G, pos))
-    theirs.update(modulus_prefix_scalars(R, R.mul(rp.blind(peer), w), G, lim))
+    if level:
+        theirs.update(modulus_prefix_scalars(R, R.mul(rp.blind(peer), w), G, lim))
     for key, k in sorted(theirs.items(), key=lambda kv: str(kv[0])):
         out.append((x0, k % q, RS.message(rp, peer, w, k % q), "inbound[%s]=%s" % key))
     ks = pattern_element_scalars(R, R.identity, R.mul(G, x0), pos)
